@@ -43,6 +43,7 @@ func (p *Prop) Meta() simkit.Meta {
 
 // shape is the reference model of the histogram's geometry.
 type shape struct {
+	huge     bool // linear range near the top of the double range
 	log      bool
 	nbins    int
 	min, max float64 // linear
@@ -67,7 +68,7 @@ func (s *shape) edge(t float64) float64 {
 		e := refmodel.Exp(new(big.Float).SetPrec(refmodel.Prec).Mul(refmodel.BF(t/s.m), s.lnb))
 		return refmodel.F(e)
 	}
-	return s.min + t*(s.max-s.min)/float64(s.nbins)
+	return s.min + (s.max-s.min)*(t/float64(s.nbins)) // this order does not overflow for ranges near the top of the double range
 }
 
 // place returns the exact bin index of x (may be <0 or >=nbins) and whether
@@ -97,7 +98,7 @@ func (s *shape) place(x float64) (idx int, lowerOK, upperOK bool) {
 			return math.MaxInt32, false, false
 		}
 		idx = int(i64)
-		tol := 16 * refmodel.Eps * (math.Abs(s.min) + math.Abs(s.max) + math.Abs(x))
+		tol := 48 * refmodel.Eps * math.Max(math.Abs(s.min), math.Max(math.Abs(s.max), math.Abs(x)))
 		lo, _ := new(big.Rat).Sub(rx, s.edgeLin(idx)).Float64()
 		hi, _ := new(big.Rat).Sub(s.edgeLin(idx+1), rx).Float64()
 		return idx, lo <= tol, hi <= tol
@@ -234,6 +235,8 @@ func (c *ctx) genValue() (float64, int) {
 	case 0:
 		if s.log {
 			x = s.edge(-float64(c.g.Range(1, 20)) - c.g.Unit())
+		} else if s.huge {
+			x = s.edge(-n * c.g.Unit()) // at most one range below (further out overflows)
 		} else {
 			x = s.edge(-n * (1 + c.g.Unit()*float64(c.g.Range(1, 1000))))
 		}
@@ -256,6 +259,8 @@ func (c *ctx) genValue() (float64, int) {
 	case 7:
 		if s.log {
 			x = s.edge(n + float64(c.g.Range(0, 20))*c.g.Unit())
+		} else if s.huge {
+			x = s.edge(n * (1 + c.g.Unit()))
 		} else {
 			x = s.edge(n * (1 + c.g.Unit()*float64(c.g.Range(0, 1000))))
 		}
@@ -267,6 +272,9 @@ func (c *ctx) add() {
 	x, cls := c.genValue()
 	if math.IsNaN(x) || math.IsInf(x, 0) || (c.sh.log && !(x > 0) && cls != 8) {
 		return
+	}
+	if c.sh.huge {
+		c.probe("huge_range_linear_hist")
 	}
 	c.logf("Add(%v) [%s]", x, valueClasses[cls])
 	c.hash.Str("A" + valueClasses[cls])
@@ -398,7 +406,7 @@ func (c *ctx) closeTo(got, want float64) bool {
 	if c.sh.log {
 		r = math.Abs(math.Log(got)-math.Log(want)) / (64 * refmodel.Eps * (1 + math.Abs(math.Log(want))))
 	} else {
-		r = math.Abs(got-want) / (64 * refmodel.Eps * (math.Abs(c.sh.min) + math.Abs(c.sh.max) + math.Abs(want)))
+		r = math.Abs(got-want) / (192 * refmodel.Eps * math.Max(math.Abs(c.sh.min), math.Max(math.Abs(c.sh.max), math.Abs(want))))
 	}
 	if c.opt.Counting {
 		c.p.St.Ratio(r, "BinToValue vs documented edge")
@@ -626,6 +634,18 @@ func (p *Prop) Run(t *simhook.Tape, opt simkit.RunOpt) *simkit.RunResult {
 		offs := []float64{0, 0.5, -0.5, 3, -3, 1000, -1000, 1e5, -1e5, -1}
 		sh.min = width * offs[g.Intn(len(offs))]
 		sh.max = sh.min + width
+		if g.Chance(1, 12) {
+			// "any min<max": a range near the top of the double range (both ends of
+			// one sign, so that max-min and every edge are finite)
+			a := math.Pow(10, g.Uniform(300, 307.9))
+			b := a * g.Uniform(0.05, 0.9)
+			if g.Chance(1, 2) {
+				sh.min, sh.max = b, a
+			} else {
+				sh.min, sh.max = -a, -b
+			}
+			sh.huge = true
+		}
 		build = func() { c.h = stats.NewLinearHist(sh.min, sh.max, sh.nbins) }
 	case 1:
 		sh.log = true
